@@ -1185,3 +1185,49 @@ impl PlayPhase {
         &self.hash_history
     }
 }
+
+/// Verification hooks: read-only access to private predicates for the harness crate.
+#[cfg(jamesmharmon_arimaa_engine_step_verif)]
+pub mod verif_hooks {
+    use super::*;
+
+    pub fn is_passing_like_action(game_state: &GameState, action: &Action) -> bool {
+        game_state.is_passing_like_action(action)
+    }
+
+    pub fn has_non_passing_like_action(game_state: &GameState, valid_actions: Vec<Action>) -> bool {
+        game_state.has_non_passing_like_action(valid_actions)
+    }
+
+    pub fn remove_passing_like_actions(game_state: &GameState, valid_actions: &mut Vec<Action>) {
+        game_state.remove_passing_like_actions(valid_actions)
+    }
+
+    pub fn curr_player_non_frozen_pieces(game_state: &GameState) -> u64 {
+        game_state.curr_player_non_frozen_pieces(game_state.piece_board())
+    }
+
+    pub fn threatened_pieces(game_state: &GameState, predators: u64, prey: u64) -> u64 {
+        game_state.threatened_pieces(predators, prey, game_state.piece_board())
+    }
+
+    pub fn can_move_in_direction(game_state: &GameState, direction: &Direction) -> u64 {
+        super::can_move_in_direction(direction, game_state.piece_board())
+    }
+
+    pub fn invalid_rabbit_moves(game_state: &GameState, direction: &Direction) -> u64 {
+        game_state.invalid_rabbit_moves(direction, game_state.piece_board())
+    }
+
+    pub fn next_push_pull_state(
+        game_state: &GameState,
+        square: &Square,
+        direction: &Direction,
+    ) -> PushPullState {
+        game_state.next_push_pull_state(square, direction)
+    }
+
+    pub fn hash_history_contains_hash_twice(hash_history: &List<Zobrist>, hash: &Zobrist) -> bool {
+        super::hash_history_contains_hash_twice(hash_history, hash)
+    }
+}
